@@ -9,7 +9,7 @@
 (***************************************************************************)
 EXTENDS Dewey, TLC, Json, SequencesExt
 
-CONSTANTS MaxTok, Full      \* Full = FALSE: the reduced token alphabet (quick tier)
+CONSTANTS MaxTok, Alphabet   \* "quick": reduced token alphabet; "full": all 29 tokens; "deep": 14 tokens, for MaxTok = 3
 
 TokensFull == { Codes("0"), Codes("1"), Codes("2"), Codes("10"), Codes("007"), Codes("."), Codes("_"),
             Codes("alpha"), Codes("ALPHA"), Codes("Beta"), Codes("rc"), Codes("pre"), Codes("PRE"),
@@ -19,7 +19,9 @@ TokensQuick == { Codes("0"), Codes("1"), Codes("10"), Codes("."), Codes("_"),
             Codes("alpha"), Codes("Beta"), Codes("rc"), Codes("PRE"),
             Codes("pl"), Codes("NB3"), Codes("nb12"), Codes("a"), Codes("z"),
             Codes("Q"), <<233>>, Codes("+"), <<178>>, <<1635>> }
-Tokens == IF Full THEN TokensFull ELSE TokensQuick
+TokensDeep == { Codes("0"), Codes("1"), Codes("10"), Codes("."), Codes("_"), Codes("alpha"), Codes("beta"), Codes("rc"),
+                Codes("PRE"), Codes("pl"), Codes("nb1"), Codes("a"), Codes("Z"), Codes("+") }
+Tokens == CASE Alphabet = "full" -> TokensFull [] Alphabet = "deep" -> TokensDeep [] OTHER -> TokensQuick
 
 VerSet == { Flatten(ts) : ts \in UNION { [1..n -> Tokens] : n \in 0..MaxTok } }
 V  == SetToSeq(VerSet)
